@@ -42,11 +42,11 @@ func init() {
 		Variant{ID: "c14-r3-array-offset-small", Prop: "C14", File: "replication/binlog_event_json.go",
 			Old:    "func printJSONArray(data []byte, large bool, result *bytes.Buffer) error {\n\tpos := 0\n\telementCount, pos := readOffsetOrSize(data, pos, large)\n\tsize, pos := readOffsetOrSize(data, pos, large)",
 			New:    "func printJSONArray(data []byte, large bool, result *bytes.Buffer) error {\n\tpos := 0\n\telementCount, pos := readOffsetOrSize(data, pos, large)\n\tsize, pos := readOffsetOrSize(data, pos, false)",
-			Expect: "C14-R3 size-class@printJSONArray"},
+			Expect: "C14-R3 size-class@jsonTypeLargeArray"},
 		Variant{ID: "c14-r3-object-stride", Prop: "C14", File: "replication/binlog_event_json.go",
 			Old:    "\t\tif large {\n\t\t\tpos += 5 // type byte + 4 bytes\n\t\t} else {\n\t\t\tpos += 3 // type byte + 2 bytes\n\t\t}\n\t}\n\tresult.WriteByte(')')\n\treturn nil\n}\n\nfunc printJSONArray",
 			New:    "\t\tif large {\n\t\t\tpos += 5 // type byte + 4 bytes\n\t\t} else {\n\t\t\tpos += 2 // type byte + 2 bytes\n\t\t}\n\t}\n\tresult.WriteByte(')')\n\treturn nil\n}\n\nfunc printJSONArray",
-			Expect: "C14-R3 stride@printJSONObject[small]"},
+			Expect: "C14-R3 stride@jsonTypeSmallObject"},
 		Variant{ID: "c14-r4-reader-advance", Prop: "C14", File: "replication/binlog_event_json.go",
 			Old: "\t\t\t\tint(data[pos+3])<<24,\n\t\t\tpos + 4", New: "\t\t\t\tint(data[pos+3])<<24,\n\t\t\tpos + 2",
 			Expect: "C14-R4 reader@readOffsetOrSize[large]"},
@@ -185,20 +185,64 @@ func runC14(a *A) {
 			a.check(handled[k].width == ww, "C14-R1", "payload@"+name, w.pos(pv.Pos()), fmt.Sprintf("%d payload byte(s)", ww), fmt.Sprintf("%s is printed from %s; its payload is %d byte(s)", name, handled[k].arg, ww))
 		}
 	}
-	// containers get the right size class
-	for k, name := range declared {
-		wantLarge := map[string]string{"jsonTypeSmallObject": "false", "jsonTypeLargeObject": "true", "jsonTypeSmallArray": "false", "jsonTypeLargeArray": "true"}[name]
-		if wantLarge == "" {
+	// containers: the printer a container type code is dispatched to, specialised on the constant arguments of that call,
+	// must print the right flavour (JSON_OBJECT / JSON_ARRAY) from the whole value
+	type contCtx struct {
+		name   string
+		fn     *ssa.Function
+		res    *Result
+		large  bool
+		object bool
+	}
+	var conts []contCtx
+	var contNames []int64
+	for k := range declared {
+		contNames = append(contNames, k)
+	}
+	sort.Slice(contNames, func(i, j int) bool { return contNames[i] < contNames[j] })
+	for _, k := range contNames {
+		name := declared[k]
+		wantLarge, isCont := map[string]bool{"jsonTypeSmallObject": false, "jsonTypeLargeObject": true, "jsonTypeSmallArray": false, "jsonTypeLargeArray": true}[name]
+		if !isCont {
 			continue
 		}
+		object := strings.Contains(name, "Object")
 		res := Specialize(pv, map[ssa.Value]constant.Value{pv.Params[0]: constant.MakeInt64(k)}, nil)
 		cs := execCallsOf(pv, res, map[ssa.Value]string{pv.Params[1]: "data", pv.Params[2]: "toplevel", pv.Params[3]: "result"})
-		wantFn := "printJSONObject"
-		if strings.Contains(name, "Array") {
-			wantFn = "printJSONArray"
+		ok := len(cs) == 1 && len(cs[0].Args) >= 1 && cs[0].Args[0] == "data"
+		why := fmt.Sprintf("%s is dispatched as %v", name, cs)
+		if ok {
+			cal := cs[0].In.Common().StaticCallee()
+			sub := specCallee(res, cs[0].In)
+			a.Evals++
+			a.touch(cal)
+			var bufP ssa.Value
+			for _, p := range cal.Params {
+				if typeIs(p.Type(), "bytes", "Buffer") {
+					bufP = p
+				}
+			}
+			first := ""
+			if bufP != nil {
+				_, items := bufferWriteList(newTB(sub), sub, bufP, 0)
+				for _, it := range items {
+					if it.Kind == "str" {
+						first = it.Txt
+						break
+					}
+				}
+			}
+			wantLit := `str("JSON_ARRAY(")`
+			if object {
+				wantLit = `str("JSON_OBJECT(")`
+			}
+			if first != wantLit {
+				ok = false
+				why = fmt.Sprintf("%s is printed by %s, which starts with %s instead of %s", name, cs[0], first, wantLit)
+			}
+			conts = append(conts, contCtx{name, cal, sub, wantLarge, object})
 		}
-		ok := len(cs) == 1 && cs[0].Callee == wantFn && len(cs[0].Args) >= 2 && cs[0].Args[0] == "data" && cs[0].Args[1] == wantLarge
-		a.check(ok, "C14-R1", "container@"+name, w.pos(pv.Pos()), wantFn+"(data, large="+wantLarge+")", fmt.Sprintf("%s is dispatched as %v; expected %s with large=%s", name, cs, wantFn, wantLarge))
+		a.check(ok, "C14-R1", "container@"+name, w.pos(pv.Pos()), fmt.Sprintf("printed as a JSON %s from the whole value", map[bool]string{true: "object", false: "array"}[object]), why+"; a container must be printed by the printer of its own kind, from the whole value")
 	}
 	// opaque sub-dispatch
 	var otyp ssa.Value
@@ -289,116 +333,81 @@ func runC14(a *A) {
 			}
 		}
 	}
-	// R3: size-class propagation and stride
-	for _, fn := range []string{"printJSONObject", "printJSONArray"} {
-		f := w.fn(w.Repl, fn)
-		if !a.need(f != nil, "C14-R3", fn) {
-			continue
-		}
-		a.touch(f)
-		var largeP ssa.Value
-		for _, p := range f.Params {
-			if types.Identical(p.Type(), types.Typ[types.Bool]) {
-				largeP = p
-			}
-		}
-		constSmall := 0
+	// R3: size-class propagation and stride, per container context (printer specialised as the dispatch calls it)
+	if len(conts) < 4 {
+		a.undecided("C14-R3", "size-class@containers", w.pos(pv.Pos()), "found %d container printers, expected 4", len(conts))
+	}
+	for _, cx := range conts {
+		// every executable read of a count/size/offset and every value entry, in the printer and the helpers it calls,
+		// evaluates its size-class argument to the container's own; the only exception is the key length of an object
+		// entry, which is always small
+		nReads, nSmall, nEntries := 0, 0, 0
 		okAll := true
-		n := 0
-		// walk f and the in-package helpers it hands its size class to (or that read on its behalf); callees that can
-		// re-enter f (the value printer choosing a new container) carry their own size class and are separate contexts
-		reaches := func(from *ssa.Function) bool {
-			seen := map[*ssa.Function]bool{}
-			var dfs func(g *ssa.Function) bool
-			dfs = func(g *ssa.Function) bool {
-				if g == f {
-					return true
-				}
-				if seen[g] || g.Blocks == nil {
-					return false
-				}
-				seen[g] = true
-				found := false
-				instrs(g, func(in ssa.Instruction) {
-					if c, ok := in.(*ssa.Call); ok && !found {
-						if cal := c.Common().StaticCallee(); cal != nil && cal.Pkg == f.Pkg {
-							found = dfs(cal)
-						}
-					}
-				})
-				return found
-			}
-			return dfs(from)
-		}
-		var walk func(g *ssa.Function, lp ssa.Value, depth int)
-		walk = func(g *ssa.Function, lp ssa.Value, depth int) {
-			a.touch(g)
+		var walk func(g *ssa.Function, res *Result, depth int)
+		walk = func(g *ssa.Function, res *Result, depth int) {
 			instrs(g, func(in ssa.Instruction) {
 				c, ok := in.(*ssa.Call)
-				if !ok || c.Common().StaticCallee() == nil {
+				if !ok || !res.Exec[c.Block()] || c.Common().StaticCallee() == nil {
 					return
 				}
 				cal := c.Common().StaticCallee()
-				if cal == ro || cal == pe {
-					n++
-					arg := c.Common().Args[2]
-					if lp != nil && arg == lp {
+				switch {
+				case cal == ro || cal == pe:
+					v, isC := constBoolLat(res.get(c.Common().Args[2]))
+					if !isC {
+						okAll = false
 						return
 					}
-					if b, ok := constBool(arg); ok && !b && cal == ro {
-						constSmall++
+					if cal == pe {
+						nEntries++
+						if v != cx.large {
+							okAll = false
+						}
 						return
 					}
-					okAll = false
-					return
-				}
-				if cal.Pkg != f.Pkg || cal.Blocks == nil || depth >= 3 || reaches(cal) {
-					return
-				}
-				var sub ssa.Value
-				for i, arg := range c.Common().Args {
-					if lp != nil && arg == lp && i < len(cal.Params) {
-						sub = cal.Params[i]
+					nReads++
+					if v != cx.large {
+						nSmall++
 					}
+				case cal.Pkg == cx.fn.Pkg && cal.Blocks != nil && depth < 3 && cal != pv && cal != cx.fn && !c.Common().IsInvoke():
+					// helpers that do not print values themselves (the value printer starts a context of its own)
+					walk(cal, specCallee(res, c), depth+1)
 				}
-				walk(cal, sub, depth+1)
 			})
 		}
-		walk(f, largeP, 0)
+		walk(cx.fn, cx.res, 0)
 		wantSmall := 0
-		if fn == "printJSONObject" {
+		if cx.object && cx.large {
 			wantSmall = 1
 		}
-		a.check(okAll && constSmall == wantSmall && n >= 3, "C14-R3", "size-class@"+fn, w.pos(f.Pos()), fmt.Sprintf("%d reads/entries use the container's size class; %d constant-small read (key length)", n-constSmall, constSmall),
-			fmt.Sprintf("a count/size/offset read or a value entry does not use the container's own size class (constant-small reads: %d, expected %d): documents of 64KB or more are mis-read", constSmall, wantSmall))
-		// stride
-		for _, large := range []bool{false, true} {
-			res := Specialize(f, map[ssa.Value]constant.Value{largeP: constant.MakeBool(large)}, nil)
-			a.Evals++
-			var entry *ssa.Call
-			instrs(f, func(in ssa.Instruction) {
-				if c, ok := in.(*ssa.Call); ok && c.Common().StaticCallee() == pe {
-					entry = c
-				}
-			})
-			cls, want := "small", "3"
-			if large {
-				cls, want = "large", "5"
+		a.check(okAll && nSmall == wantSmall && nReads >= 2 && nEntries >= 1, "C14-R3", "size-class@"+cx.name, w.pos(cx.fn.Pos()),
+			fmt.Sprintf("%d reads and %d value entries use the container's size class; %d fixed-small read (key length)", nReads-nSmall, nEntries, nSmall),
+			fmt.Sprintf("in a %s a count/size/offset read or a value entry does not use the container's own size class (%d reads, %d of them in the other class, expected %d; %d entries; all decided: %v): documents of 64KB or more are mis-read", cx.name, nReads, nSmall, wantSmall, nEntries, okAll))
+		// stride between consecutive value entries
+		var entry *ssa.Call
+		instrs(cx.fn, func(in ssa.Instruction) {
+			if c, ok := in.(*ssa.Call); ok && c.Common().StaticCallee() == pe && cx.res.Exec[c.Block()] {
+				entry = c
 			}
-			got := "?"
-			if entry != nil {
-				if phi, ok := entry.Common().Args[1].(*ssa.Phi); ok {
-					t := newTB(res)
-					t.names[phi] = "p"
-					for i, pr := range phi.Block().Preds {
-						if phi.Block().Dominates(pr) && res.Exec[pr] {
-							got = t.term(phi.Edges[i]).add(affAtom("p"), -1).String()
-						}
+		})
+		want := "3"
+		if cx.large {
+			want = "5"
+		}
+		got := "?"
+		if entry != nil {
+			if phi, ok := entry.Common().Args[1].(*ssa.Phi); ok {
+				t := newTB(cx.res)
+				t.names[phi] = "p"
+				for i, pr := range phi.Block().Preds {
+					if phi.Block().Dominates(pr) && cx.res.Exec[pr] {
+						got = t.term(phi.Edges[i]).add(affAtom("p"), -1).String()
 					}
 				}
 			}
-			a.check(got == want, "C14-R3", fmt.Sprintf("stride@%s[%s]", fn, cls), w.pos(f.Pos()), "value entries are "+want+" bytes apart", fmt.Sprintf("in the %s format consecutive value entries are read %s bytes apart; an entry is 1 type byte + %s", cls, got, map[bool]string{false: "2 bytes", true: "4 bytes"}[large]))
 		}
+		a.check(got == want, "C14-R3", "stride@"+cx.name, w.pos(cx.fn.Pos()), "value entries are "+want+" bytes apart",
+			fmt.Sprintf("in a %s consecutive value entries are read %s bytes apart; an entry is 1 type byte + %s", cx.name, got, map[bool]string{false: "2 bytes", true: "4 bytes"}[cx.large]))
 	}
 	// R4
 	for _, large := range []bool{false, true} {
@@ -706,4 +715,20 @@ func successReturnsIdx(res *Result) []*ssa.Return {
 		}
 	}
 	return out
+}
+
+
+// specCallee specialises the callee of c on the arguments that are constants under res.
+func specCallee(res *Result, c *ssa.Call) *Result {
+	cal := c.Common().StaticCallee()
+	bind := map[ssa.Value]constant.Value{}
+	for i, a := range c.Common().Args {
+		if i >= len(cal.Params) {
+			break
+		}
+		if l := res.get(a); l.k == cst && !l.nilc && l.tbl == nil && l.v != nil && l.v.Kind() != constant.Unknown {
+			bind[cal.Params[i]] = l.v
+		}
+	}
+	return Specialize(cal, bind, nil)
 }
